@@ -974,10 +974,50 @@ def enumerate_paths(body, limit=4000, max_visits=1, start=0):
             sw_cache[bb] = describe_switch(body, bb)
         return sw_cache[bb]
 
+    def step_consts(bb, consts):
+        """path-sensitive propagation of integer/bool constants through plain locals
+        (drop flags, `matches!` temporaries): returns the updated dict"""
+        c = consts
+        changed = False
+        for st in body.blocks[bb]["stmts"]:
+            if st["k"] != "assign" or st["place"]["p"]:
+                continue
+            l = st["place"]["l"]
+            rv = st["rv"]
+            val = None
+            if rv["k"] == "use":
+                o = rv["op"]
+                if o.get("k") == "const" and "int" in o:
+                    val = o["int"]
+                elif o.get("k") in ("copy", "move") and not o["place"]["p"]:
+                    val = c.get(o["place"]["l"])
+            elif rv["k"] == "unop" and rv["op"] == "Not":
+                o = rv["x"]
+                if o.get("k") in ("copy", "move") and not o["place"]["p"]:
+                    v = c.get(o["place"]["l"])
+                    if v is not None:
+                        val = 0 if v else 1
+            if val is not None:
+                if not changed:
+                    c = dict(c)
+                    changed = True
+                c[l] = val
+            elif l in c:
+                if not changed:
+                    c = dict(c)
+                    changed = True
+                del c[l]
+        t = body.blocks[bb]["term"]
+        if t["k"] == "call" and not t["dest"]["p"] and t["dest"]["l"] in c:
+            if not changed:
+                c = dict(c)
+            del c[t["dest"]["l"]]
+        return c
+
     # iterative DFS
-    stack = [(start, (start,), (), ())]
+    stack = [(start, (start,), (), (), step_consts(start, {}))]
     while stack:
-        bb, blocks, atoms, calls = stack.pop()
+        bb, blocks, atoms, calls, consts = stack.pop()
         t = body.term(bb)
         k = t["k"]
         if k == "return":
@@ -988,20 +1028,35 @@ def enumerate_paths(body, limit=4000, max_visits=1, start=0):
         if k == "call":
             calls = calls + ((callee(t) or "<indirect>", bb),)
         if k == "switch":
+            d = t["discr"]
+            known = None
+            if d.get("k") in ("copy", "move") and not d["place"]["p"]:
+                known = consts.get(d["place"]["l"])
+            elif d.get("k") == "const" and "int" in d:
+                known = d["int"]
+            if known is not None:
+                tb = t["otherwise"]
+                for v, x in t["targets"]:
+                    if str(v) == str(known):
+                        tb = x
+                if blocks.count(tb) < max_visits:
+                    stack.append((tb, blocks + (tb,), atoms, calls, step_consts(tb, consts)))
+                continue
             ds = sw(bb)
             kind, subject, labels = ds
             for tb in body.succs(bb):
                 if blocks.count(tb) >= max_visits:
                     continue
                 labs = tuple(labels.get(tb, ()))
-                if not labs and tb not in labels:
-                    continue
-                stack.append((tb, blocks + (tb,), atoms + (Atom(kind, subject, labs, bb),), calls))
+                if not labs:
+                    continue  # edge taken by no value of the scrutinee (exhausted `otherwise`)
+                stack.append((tb, blocks + (tb,), atoms + (Atom(kind, subject, labs, bb),), calls,
+                              step_consts(tb, consts)))
             continue
         for s in body.succs(bb):
             if blocks.count(s) >= max_visits:
                 continue
-            stack.append((s, blocks + (s,), atoms, calls))
+            stack.append((s, blocks + (s,), atoms, calls, step_consts(s, consts)))
     return results
 
 
